@@ -161,6 +161,11 @@ func c14Program(cs *caseSet, nVal int) {
 			if err1 != nil || err2 != nil {
 				fatal("reference decode failed")
 			}
+			// filling defaults can make two set items / map keys equal: such a value is outside the statement
+			if xw, err := codec.ToWire(t, x); err != nil || !dupFree(xw) {
+				c.rep.Hist("perturbation", "skipped:duplicates-after-default-filling")
+				continue
+			}
 			// z: x with one perturbation (still valid and duplicate-free)
 			var z *gtext.G
 			what := "none"
